@@ -39,8 +39,11 @@ NS = [1, 2, 3, 5]
 
 # ------------------------------------------------------------------ generators
 
-def gen_batch(cls: str, cfg: dict, rng: Rng, n: int, weighted: bool) -> Batch:
+def gen_batch(cls: str, cfg: dict, rng: Rng, n: int, weighted: bool, zero_w: bool = False) -> Batch:
+    """`zero_w`: an update whose weights are all zero — it adds nothing to any sum but still is an update
+    (it must take a window slot and evict the oldest one)."""
     t = cfg.get("num_tasks", 1)
+    W4 = [Fr(0)] if zero_w else globals()["W4"]
     shape = (n,) if t == 1 else (t, n)
     if cls == "WindowedClickThroughRate":
         x = it([rng.choice([0, 1]) for _ in range(t * n)], shape=shape)
@@ -492,7 +495,9 @@ def run(rep: Report):
             for _ in range(reps):
                 weighted = rng.random() < 0.5
                 nb = 4 * N + 3
-                batches = [gen_batch(cls, cfg, rng, rng.choice([1, 2, 3]), weighted) for _ in range(nb)]
+                batches = [gen_batch(cls, cfg, rng, rng.choice([1, 2, 3]), weighted, zero_w=weighted and rng.random() < 0.2)
+                           for _ in range(nb)]
+                rep.count(f"{cls}:streams-with-zero-weight-update", int(weighted))
                 check_stream(rep, found, cls, cfg, batches, progs)
     # (2) AUROC sample streams
     for N in NS:
